@@ -519,6 +519,148 @@ theorem c04_spec_accepts {s s' : QState} {ev : Ev} {i : Nat} (hr : Reachable s) 
   rw [hd]
   rcases hb e he with h1 | h1 <;> simp [h1]
 
+/-! ### The barrier as a property of the whole history -/
+
+theorem marks_pushOrder_grow {s s' : QState} {ev : Ev} (h : step s ev = some s') :
+    (∃ l, s'.marks = s.marks ++ l) ∧ (∃ l, s'.pushOrder = s.pushOrder ++ l) := by
+  cases ev with
+  | push p =>
+    have hpo := (push_core h).2.1
+    simp only [step] at h
+    split at h
+    · cases h
+    · split at h <;> cases h <;> exact ⟨⟨[], by simp⟩, ⟨_, rfl⟩⟩
+  | w c =>
+    have hpo : s'.pushOrder = s.pushOrder := by
+      cases wstep_core h with
+      | same heq => exact congrArg Core.pushOrder heq
+      | pop _ _ _ _ _ _ _ _ hpo _ => exact hpo
+      | consume _ _ _ _ _ _ _ hpo _ => exact hpo
+    have hm : s'.marks = s.marks := by
+      simp only [step] at h
+      unfold wstep at h
+      split at h
+      · split at h <;> cases h <;> rfl
+      · cases h; rfl
+      · cases h; rfl
+      · split at h
+        · cases h; rfl
+        · split at h
+          · cases h; rfl
+          · split at h <;> cases h <;> rfl
+      · split at h
+        · cases h; rfl
+        · split at h
+          · cases h; rfl
+          · cases h
+      · split at h <;> cases h <;> rfl
+      · cases h; rfl
+      · split at h <;> cases h <;> rfl
+      · split at h <;> cases h <;> rfl
+      · split at h <;> cases h <;> rfl
+      · cases h; rfl
+      · cases h; rfl
+      · cases h
+    exact ⟨⟨[], by simp [hm]⟩, ⟨[], by simp [hpo]⟩⟩
+  | flushSend =>
+    simp only [step] at h
+    split at h <;> cases h <;> exact ⟨⟨_, rfl⟩, ⟨[], by simp⟩⟩
+  | unpark p => simp only [step] at h; split at h <;> cases h; exact ⟨⟨[], by simp⟩, ⟨[], by simp⟩⟩
+  | flushUnpark i => simp only [step] at h; split at h <;> cases h; exact ⟨⟨[], by simp⟩, ⟨[], by simp⟩⟩
+  | clone => simp only [step] at h; split at h <;> cases h; exact ⟨⟨[], by simp⟩, ⟨[], by simp⟩⟩
+  | dropHandle => simp only [step] at h; split at h <;> cases h; exact ⟨⟨[], by simp⟩, ⟨[], by simp⟩⟩
+  | forget => simp only [step] at h; split at h <;> cases h; exact ⟨⟨[], by simp⟩, ⟨[], by simp⟩⟩
+  | dropJoinBegin => simp only [step] at h; split at h <;> cases h; exact ⟨⟨[], by simp⟩, ⟨[], by simp⟩⟩
+  | dropJoinUnpark => simp only [step] at h; split at h <;> cases h; exact ⟨⟨[], by simp⟩, ⟨[], by simp⟩⟩
+  | dropJoinEnd => simp only [step] at h; split at h <;> cases h; exact ⟨⟨[], by simp⟩, ⟨[], by simp⟩⟩
+
+/-- the barrier at one position of the history: the completion of `i` is preceded by a flush, with
+only other completions in between, and before that flush every entry pushed before request `i` was
+handed to the stream or displaced -/
+def BarrierAt (s : QState) (pre : List Obs) (i : Nat) : Prop :=
+  i < s.marks.length ∧ ∃ p1 p2, pre = p1 ++ Obs.flush :: p2 ∧ (∀ o ∈ p2, ∃ j, o = Obs.completed j true) ∧
+    ∀ e ∈ s.pushOrder.take (markOf s i), e ∈ delivered p1 ∨ e ∈ displaced p1
+
+def BarrierLog (s : QState) : Prop :=
+  ∀ pre post i, s.log = pre ++ Obs.completed i true :: post → BarrierAt s pre i
+
+theorem barrierAt_mono {s s' : QState} {ev : Ev} (h : step s ev = some s') (hmle : ∀ m ∈ s.marks, m ≤ s.pushOrder.length)
+    {pre : List Obs} {i : Nat} (hb : BarrierAt s pre i) : BarrierAt s' pre i := by
+  obtain ⟨⟨lm, hm⟩, ⟨lp, hp⟩⟩ := marks_pushOrder_grow h
+  obtain ⟨hlt, p1, p2, hpre, hp2, hall⟩ := hb
+  have hmk : markOf s' i = markOf s i := by
+    simp only [markOf, hm, List.getD_eq_getElem?_getD, List.getElem?_append_left hlt]
+  refine ⟨by rw [hm]; simp; omega, p1, p2, hpre, hp2, ?_⟩
+  rw [hmk, hp, List.take_append_of_le_length (markOf_le hmle i)]
+  exact hall
+
+theorem barrierLog_step {s s' : QState} {ev : Ev} (hr : Reachable s) (hcap : 0 < s.cap) (hb : BarrierLog s)
+    (h : step s ev = some s') : BarrierLog s' := by
+  have hi := flushInv_reachable hr hcap
+  obtain ⟨added, hl⟩ := log_grows h
+  intro pre post i hsplit
+  rw [hl] at hsplit
+  rcases List.append_eq_append_iff.mp hsplit with ⟨a', hpre, hadd⟩ | ⟨c', hlog, hadd⟩
+  · -- the completion is among the observations of this very step
+    have hnew : Obs.completed i true ∈ s'.log.drop s.log.length := by
+      rw [hl]; simp [hadd]
+    obtain ⟨c, st, n, hev, hpc, hw0, hcomp, hiw, hlog'⟩ := completed_origin h hnew
+    obtain ⟨hbar, _⟩ := c04_barrier hr hcap h hnew
+    have hadded : added = Obs.flush :: s.waiting.map (Obs.completed · true) := by
+      have := hl.symm.trans hlog'; exact List.append_cancel_left this
+    rw [hadded] at hadd
+    -- a' = flush :: (a prefix of the completions)
+    cases a' with
+    | nil => simp at hadd
+    | cons x a'' =>
+      simp only [List.cons_append, List.cons.injEq] at hadd
+      obtain ⟨hx, hrest⟩ := hadd
+      subst hx
+      have hp2 : ∀ o ∈ a'', ∃ j, o = Obs.completed j true := by
+        intro o ho
+        have : o ∈ s.waiting.map (Obs.completed · true) := by rw [hrest]; simp [ho]
+        obtain ⟨j, _, rfl⟩ := List.mem_map.mp this
+        exact ⟨j, rfl⟩
+      have hb0 : BarrierAt s pre i :=
+        ⟨hi.ids i (.inl hiw), s.log, a'', by rw [hpre], hp2, hbar⟩
+      exact barrierAt_mono h hi.marksLe hb0
+  · cases c' with
+    | nil =>
+      -- boundary: the completion is the first new observation
+      simp only [List.append_nil] at hlog
+      simp only [List.nil_append] at hadd
+      have hnew : Obs.completed i true ∈ s'.log.drop s.log.length := by
+        rw [hl]; simp [← hadd]
+      obtain ⟨c, st, n, hev, hpc, hw0, hcomp, hiw, hlog'⟩ := completed_origin h hnew
+      have hadded : added = Obs.flush :: s.waiting.map (Obs.completed · true) := by
+        have := hl.symm.trans hlog'; exact List.append_cancel_left this
+      rw [hadded] at hadd
+      cases hadd
+    | cons x c'' =>
+      simp only [List.cons_append, List.cons.injEq] at hadd
+      obtain ⟨hx, _⟩ := hadd
+      subst hx
+      exact barrierAt_mono h hi.marksLe (hb pre c'' i hlog)
+
+theorem barrierLog_reachable {s : QState} (hr : Reachable s) : 0 < s.cap → BarrierLog s := by
+  induction hr with
+  | init cap res ns => intro _ pre post i hs; simp [init] at hs
+  | step hr' hst ih =>
+    intro hc
+    rw [cap_const hst] at hc
+    exact barrierLog_step hr' hc (ih hc) hst
+
+/-- **The flush barrier over the whole history.** In every reachable state (capacity > 0), for every
+position of the history at which flush future `i` completed on a live queue: the history before it
+ends with a `flush` followed only by other completions, and before that `flush` every entry pushed
+before request `i` was sent had been handed to the stream or displaced by overflow. -/
+theorem c04_barrier_log {s : QState} (hr : Reachable s) (hcap : 0 < s.cap) {pre post : List Obs} {i : Nat}
+    (hsplit : s.log = pre ++ Obs.completed i true :: post) :
+    ∃ p1 p2, pre = p1 ++ Obs.flush :: p2 ∧ (∀ o ∈ p2, ∃ j, o = Obs.completed j true) ∧
+      ∀ e ∈ s.pushOrder.take (markOf s i), e ∈ delivered p1 ∨ e ∈ displaced p1 := by
+  have := barrierLog_reachable hr
+  exact (this hcap pre post i hsplit).2
+
 /-! ## Boundedness (L1 / S2): the potential function -/
 
 /-- potential of request `i`: an upper bound on the number of progressing `handle_waiting_wakers`
@@ -757,24 +899,39 @@ theorem c04_exit_completes_all {s : QState} (c : Clock) (hpc : s.wpc = .shutFlus
       s'.log = s.log ++ [.flush, .closed] ++ (s.waiting ++ s.sigs).map (Obs.completed · false) := by
   unfold wstep; rw [hpc]; exact ⟨_, rfl, rfl, rfl⟩
 
-/-! ## Non-vacuity: capacity 2, producers refill after every pop, the ring is never empty -/
+/-! ## Non-vacuity: capacity 2, a producer refills after every pop, the ring is never empty -/
 
 def nvC : Clock := ⟨true, false, false, false⟩
 
-/-- run: two entries queued, flush requested, then the writer pops/writes while a producer pushes a
-new entry after every pop; the ring is never empty when the writer looks, yet the future completes -/
-def nvFlush : Option QState :=
-  run (init 2 (fun _ => .ok) true)
-    ([.push 0, .push 0, .flushSend, .flushUnpark 0] ++
-     -- the writer: drain 0 → pop, write; pop, write … the deadline bit only matters every 32 entries
-     [.w nvC, .w nvC, .push 1, .w nvC, .w nvC, .push 1, .w nvC, .w nvC, .push 1])
+/-- pop, write, and a producer pushes a new entry at once -/
+def refill : List Ev := [.w nvC, .w nvC, .push 1]
 
-example : (nvFlush.map fun s => (s.ring.length, decide (s.wpc = .drain 3), s.sigs)) = some (2, true, [0]) := by decide
+/-- two entries queued, a flush requested; the writer pops and writes 32 entries (the ring is
+refilled after every pop), hits its deadline, collects the request (`ebw = 2`), goes round the outer
+loop, writes 32 more entries, hits the deadline again — and wakes the future although the ring has
+never been empty -/
+def nvNeverEmpty : List Ev :=
+  [.push 0, .push 0, .flushSend, .flushUnpark 0] ++ (List.replicate 32 refill).flatten ++
+  [.w nvC, .w nvC, .w nvC, .w nvC, .w nvC] ++ (List.replicate 32 refill).flatten ++ [.w nvC]
+
+/-- minimum over the run of (ring + entry being written) -/
+def minInflight (s : QState) : List Ev → Nat → Option Nat
+  | [], m => some m
+  | ev :: evs, m => match step s ev with
+    | none => none
+    | some s' => minInflight s' evs (min m (s'.ring.length + (holding s'.wpc).length))
+
+example : ((run (init 2 (fun _ => .ok) true) nvNeverEmpty).map fun s =>
+    (s.ring.length, s.log.contains (.completed 0 true), (delivered s.log).length)) = some (2, true, 64) := by
+  decide +kernel
+
+example : minInflight (init 2 (fun _ => .ok) true) nvNeverEmpty 99 = some 1 := by decide +kernel
 
 end Queue
 
 #print axioms Queue.c04_barrier
 #print axioms Queue.c04_spec_accepts
+#print axioms Queue.c04_barrier_log
 #print axioms Queue.c04_bounded
 #print axioms Queue.c04_bounded_loop
 #print axioms Queue.c04_after_exit_immediate
